@@ -264,12 +264,12 @@ ROUND10_SWALLOWED = ("Round 10 (a fault at a particular point): phase swallowed,
   "arguments, builtin and unary operands, nested functions; the forms that are instances of this property's statement) x 33 faults that fail after evaluating "
   "a pure part of themselves (unbound names at every position of a chain, throwing script functions, panicking host functions, modulo zero, index out of "
   "range, member of nil, failing calls of every call path incl. functions whose body throws, nested op-assignments whose right side fails, callbacks failing "
-  "at their k-th call inside sort.Slice / strings.Map) x 3 swallowers ((F) ?? V, a catching script function, try/catch before the form), followed by the same "
+  "at their k-th call inside sort.Slice / strings.Map) x 4 swallowers ((F) ?? V, a catching script function, try/catch before the form, the form run three times in a loop with the fault in the first round only so that the same nodes are evaluated again after they failed once), followed by the same "
   "constructs, builtin and package calls without any fault; plus 22 failing statements (multi-assignment targets, op-assignments, delete, loop headers, "
   "switch cases, defer / go statements whose arguments fail, finally blocks) inside try in a function whose enclosing scopes bind the names, with the "
   "follow-up assignments and read-backs after the try, inside the catch block and inside the finally block. Oracle: the program and its fault-free sibling "
   "(V written in place of the swallowed fault / the failing statement left out) record the same probe trace, value, error status and read-backs.")
-for _k in ("C03", "C04", "C05", "C06", "C07", "C08", "C09", "C10", "C11", "C19"):
+for _k in ("C03", "C04", "C05", "C06", "C07", "C08", "C09", "C10", "C11", "C19", "C20"):
     CLAIMED[_k]["text"] += " " + ROUND10_SWALLOWED
 CLAIMED["C14"]["text"] += (" Round 9/10: phases company-only and company-only-race (the battery of cmd/vworker/company.go alone, batches of eight executions released together in "
   "environments and trees of their own, judged by the battery's own natively computed values and, in the race build, by the race detector: any report with an anko frame is hidden "
